@@ -36,9 +36,9 @@ import (
 type poolProxy struct{ p *evidence.Pool }
 
 func (x *poolProxy) PendingEvidence(m int64) ([]types.Evidence, int64) { return x.p.PendingEvidence(m) }
-func (x *poolProxy) AddEvidence(ev types.Evidence) error              { return x.p.AddEvidence(ev) }
-func (x *poolProxy) Update(s sm.State, l types.EvidenceList)          { x.p.Update(s, l) }
-func (x *poolProxy) CheckEvidence(l types.EvidenceList) error         { return x.p.CheckEvidence(l) }
+func (x *poolProxy) AddEvidence(ev types.Evidence) error               { return x.p.AddEvidence(ev) }
+func (x *poolProxy) Update(s sm.State, l types.EvidenceList)           { x.p.Update(s, l) }
+func (x *poolProxy) CheckEvidence(l types.EvidenceList) error          { return x.p.CheckEvidence(l) }
 
 type lcaInfo struct {
 	ok   bool
@@ -64,12 +64,12 @@ type hist struct {
 	dveMemo    map[string]lcaInfo // reference verdicts already computed (decided heights only)
 
 	// model
-	committed map[string]int64  // evidence hash -> height of the block that carried it
-	prev      map[string]string // observed pending set after the previous operation: hash -> bytes key
+	committed   map[string]int64  // evidence hash -> height of the block that carried it
+	prev        map[string]string // observed pending set after the previous operation: hash -> bytes key
 	prevItems   map[string]types.Evidence
 	prevHeights map[string]int64
-	buffer    []bufItem         // conflicting votes reported, not yet flushed by an Update
-	drift     int64             // Size() - |pending| after the previous operation
+	buffer      []bufItem // conflicting votes reported, not yet flushed by an Update
+	drift       int64     // Size() - |pending| after the previous operation
 
 	// material for later operations
 	validSeen     []types.Evidence // genuine items generated so far (wire form)
